@@ -21,6 +21,13 @@ differential run only).
 * `EucRing::gcd`, `EucRing::lcm`       for the integer types these forward to `num_integer::Integer::{gcd, lcm}`,
                                        ASSUMED to be the non-negative gcd / lcm (`Int.gcd`, `Int.lcm`; `lcm 0 0 = 0`);
 * `abs`, `signum`                      `|a|`, `Int.sign`;
+* `I::neg(a)`, `I::add(a, b)`, …       the operator traits called as functions: `-a`, `a + b`, `a - b`, `a * b`;
+* `a.rem_euclid(b)`                    the non-negative remainder `Int.emod`; panics when `b = 0`;
+* `a.to_i64()`, `a.is_odd()`           `Some(a)`; `a mod 2 = 1` (num-integer);
+* `I::from_i32(a)`                     `Some(a)` (`FromPrimitive`; never fails for i32/i64/i128/BigInt); a const generic
+                                       `const D: i32` is read as an unbounded `Int` as well (its i32 overflow is not modelled);
+* `a.div_round(&b)`                    the blanket impl `DivRound for T: Integer` of yui/src/misc/int_ext.rs, copied here
+                                       (`Yuiv/Props/C15GenQ.lean` proves it equal to the definition generated from that source);
 * `opt.unwrap()`                       panics on `None` (`Opt.unwrap`).
 References and `clone()` are erased.
 -/
@@ -51,6 +58,26 @@ def div (a b : Int) : Res Int := if b = 0 then panic else ok (a.tdiv b)
 def rem (a b : Int) : Res Int := if b = 0 then panic else ok (a.tmod b)
 def abs (a : Int) : Int := ((a.natAbs : Nat) : Int)
 def signum (a : Int) : Int := a.sign
+def neg (a : Int) : Int := -a
+def add (a b : Int) : Int := a + b
+def sub (a b : Int) : Int := a - b
+def mul (a b : Int) : Int := a * b
+/-- `a.rem_euclid(b)` -/
+def rem_euclid (a b : Int) : Res Int := if b = 0 then panic else ok (a % b)
+/-- `ToPrimitive::to_i64` (never fails for the values the library converts; an out-of-range BigInt is not modelled) -/
+def to_i64 (a : Int) : Option Int := some a
+/-- `num_integer::Integer::is_odd` / `is_even` -/
+def is_odd (a : Int) : Bool := a % 2 == 1
+def is_even (a : Int) : Bool := a % 2 == 0
+/-- `FromPrimitive::from_i32` -/
+def from_i32 (a : Int) : Option Int := some a
+/-- `DivRound::div_round` of the integer types: nearest integer to `a / b`, ties away from zero -/
+def div_round (a b : Int) : Res Int := do
+  let quo ← div a b
+  let rem ← rem a b
+  let nr := if is_positive rem then -rem else rem
+  let nb := if is_positive b then -b else b
+  ok (if nr ≤ nb - nr then (if is_negative a = is_negative b then quo + 1 else quo - 1) else quo)
 
 end RInt
 
